@@ -1389,7 +1389,7 @@ class ProgramData:
 
         for option in all_cmd_options_iter:
             if not option:
-                continue
+                raise RuntimeError("Empty argument")
             try:
                 if option[0] != "-":
                     if input_filename is not None:
@@ -1398,11 +1398,15 @@ class ProgramData:
                     continue
                 elif option[1] == "-":
                     option_name = option[2:]
+                    if len(option_name) < 2:
+                        raise RuntimeError("Unknown option " + option) # (the one-letter names are spelled with a single dash)
                     if option_name not in ["help", "dry-run", "version", "help-all"]:
                         option_value = next(all_cmd_options_iter)
                 else:
                     option_name = option[1]
                     option_value = option[2:]
+                    if option_name in ["t", "h"] and option_value:
+                        raise RuntimeError("Invalid argument " + option) # these take no value
             except IndexError:
                 raise RuntimeError("Invalid argument " + option)
             except StopIteration:
@@ -1416,6 +1420,8 @@ class ProgramData:
                 program_output_name = option_value
             elif option_name == "O":
                 try:
+                    if not (option_value.isascii() and option_value.isdigit()): # int() also takes signs, blanks, underscores, other scripts' digits
+                        raise ValueError(option_value)
                     optimize_level = int(option_value)
                 except ValueError as e:
                     raise RuntimeError("Invalid optimization level " + option_value) from e
@@ -1466,6 +1472,8 @@ class ProgramData:
                 if p_option_name not in ProgramOption.__members__:
                     raise RuntimeError("Unknown option " + option_name)
                 try:
+                    if type(ProgramOption[p_option_name].default) is int and not (option_value.isascii() and option_value.isdigit()):
+                        raise ValueError(option_value)
                     cls._options[ProgramOption[p_option_name]] = type(ProgramOption[p_option_name].default)(option_value)
                 except ValueError as e:
                     raise RuntimeError("Invalid value for option " + option_name) from e
